@@ -22,6 +22,9 @@ type space struct {
 	gen   func(i int64) (a, b core.Files)
 	// ACL under packet evaluation (C14): name of ACL and of groups lookup.
 	acl string
+	// eff computes the effective (merged) target of a multi-part target
+	// independently of the tool; nil = the parts are not interpreted here.
+	eff func(b core.Files) string
 }
 
 // oracle flags
@@ -201,8 +204,12 @@ func (x *approvex) runCaseTag(sp *space, idx int64, a, b core.Files, tag string)
 	x.visit(a.Main)
 	var before *ciscomodel.Dev
 	tb := ciscomodel.Load(b.Main, ios)
-	scope := ciscomodel.ScopeOf(tb)
 	multipart := b.V6 != "" || b.Raw != "" || a.V6 != "" || a.Raw != ""
+	if sp.eff != nil && multipart {
+		tb = ciscomodel.Load(sp.eff(b), ios)
+		multipart = false
+	}
+	scope := ciscomodel.ScopeOf(tb)
 	if x.orc.cuts && tag == "" {
 		x.runCuts(sp, idx, a, b, script)
 		return nil
@@ -492,6 +499,14 @@ var c14Lines = []string{
 	"permit ip any4 any4",
 }
 
+func iosC14Lines() []string {
+	var l []string
+	for _, s := range c14Lines {
+		l = append(l, iosSpell(s))
+	}
+	return l
+}
+
 var c14Lines4 = []string{c14Lines[4], c14Lines[6], c14Lines[1], c14Lines[0], c14Lines[5]}
 
 func iosSpell(l string) string {
@@ -646,6 +661,8 @@ func c14Worker(ctx *core.Ctx) *core.Result {
 		// length 4 over five lines: two overlapping denies, three permits
 		aclPairSpace("ASA", "acl-asa4", c14Lines4, 5, 4, false),
 		aclPairSpace("IOS", "acl-ios4", c14Lines4, 5, 4, false),
+		// merged target: two raw blocks of the ACL + the Netspoc lines
+		iosRawBlocksSpace("raw-blocks-ios", iosC14Lines(), 6, 3),
 	})
 	if ctx.Thorough() {
 		// extended spaces: a superset of the quick ones, own names so that
